@@ -1,4 +1,5 @@
 import CoapVerif.Lemmas.EditDup
+import CoapVerif.Lemmas.EditRc
 /-
 C04 — in-place message edits change only what they name.
 
@@ -13,6 +14,12 @@ STATUS: proved in full.
    abstract option list), Lemmas/EditPatch.lean (the byte-level key lemma: next-option header rewrite = canonical header
    with the new delta, all size classes), Lemmas/EditRefine.lean, Lemmas/EditApi.lean, Lemmas/EditTrace.lean.
  * whole sequences + round trip: `edits_then_roundtrip` (`roundtrip_of_refined` is its second half).
+ * return codes of removals (SPEC DECISION D17, added for seed C04-12): S prescribes that coap_remove_option returns 1
+   exactly when the message holds the option, and that on a message without it nothing changes
+   (`remove_absent_changes_nothing`); M does so, per call (`remove_rc_prescribed`) and along every edit sequence, the
+   presence being that in the abstract message REACHED SO FAR (`edits_rc_prescribed`, `EditTraceRc` in Lemmas/EditRc.lean).
+   The oracle of the check (Driver/Build.lean `absRunRc`, Driver/EditSpec.lean) applies the same prescription to the
+   return codes the implementation reports.
  * coap_pdu_duplicate_lkd (the copy the library edits further: block-wise transfer, proxy, OSCORE, async): read as the
    edit sequence "replace the token, remove the named options" on a copy (D16, `duplicate_is_edit_sequence`,
    `duplicate_frame`); both branches of M refine it for every abstract message, token, filter and capacity
@@ -281,6 +288,64 @@ theorem edits_then_roundtrip (ms : Nat) (a : Msg) (es : List Spec.Edit) (hs : Sh
   obtain ⟨hty, hcode, hmid, ht, _, _, hlen⟩ := hwf
   exact ⟨Spec.encode p a', serialise_conc p ms a' hty hcode hmid ht hlen,
          Coap.decode_encode p a' ⟨hty, hcode, hmid, ht, by assumption, by assumption, hlen⟩⟩
+
+/-- S, D17: removing an option number the message does not hold changes NOTHING — whatever options follow -/
+theorem remove_absent_changes_nothing (hop : Bool) (m : Msg) (n : Nat) (h : Spec.hasOpt n m.opts = false) :
+    Spec.applyEdit hop m (.remove n) = m := by
+  show ({ m with opts := Spec.removeFirst n m.opts } : Msg) = m
+  rw [removeFirst_absent n m.opts h]
+
+/-- **the return code of coap_remove_option is the one S prescribes (D17)**, every abstract message the API can produce,
+every number, every capacity: on a message WITHOUT option `n` the call returns 0 and the PDU is the one it was — byte for
+byte, `max_opt` and `data` included, whichever higher-numbered options follow; on a message WITH it the call returns 1
+and the PDU represents the abstract removal -/
+theorem remove_rc_prescribed (ms : Nat) (a : Msg) (n : Nat) (hs : Shape a) :
+    (Spec.hasOpt n a.opts = false → removeOption (conc ms a) n = R.ok (0, conc ms a)) ∧
+    (Spec.hasOpt n a.opts = true →
+      removeOption (conc ms a) n = R.ok (1, conc ms (Spec.applyEdit false a (.remove n)))) := by
+  have h := (remove_refines ms a n hs).1
+  constructor
+  · intro hh
+    rw [h, remove_absent_changes_nothing false a n hh]
+    simp [hh]
+  · intro hh
+    rw [h]
+    simp [hh]
+
+/-- **C04 with prescribed return codes, whole sequences**: `edits_then_roundtrip`'s trace is one in which, in addition,
+every removal returned 1 exactly when the abstract message REACHED SO FAR held the option and 0 exactly when it did not
+(`EditTraceRc`, D17) — so the return codes M reports for removals are a function of the abstract run alone, and the
+oracle may demand them of the implementation -/
+theorem edits_rc_prescribed (ms : Nat) (a : Msg) (es : List Spec.Edit) (hs : Shape a) (hn : ∀ e ∈ es, editNumOk e) :
+    ∃ rcs a', run (conc ms a) (es.map callOf) = R.ok (rcs, conc ms a') ∧ EditTraceRc a es rcs a' ∧ Shape a' := by
+  have hc : ∀ c ∈ es.map callOf, callNumOk c := by
+    intro c hc
+    obtain ⟨e, he, rfl⟩ := List.mem_map.mp hc
+    have := hn e he
+    cases e <;> exact this
+  obtain ⟨rcs, a', h1, h2, h3⟩ := run_refines_rc ms a (es.map callOf) hs hc
+  exact ⟨rcs, a', h1, editTraceRc_of_traceRc es a a' rcs h2, h3⟩
+
+/-- non-vacuity, the witness of seed C04-12: options 11, 12, 14, 60 and a payload; removing the absent 27 (Block1 — what
+libcoap does on every 4.xx / 5.xx response), 13 or 1 returns 0 and leaves everything in place, 60 / 14 / 11 included -/
+example : removeOption (conc 0 ⟨0, 1, 7, [1, 2], [(11, [0x61]), (12, [0]), (14, [0x3c]), (60, [0x10])], [9]⟩) 27 =
+    R.ok (0, conc 0 ⟨0, 1, 7, [1, 2], [(11, [0x61]), (12, [0]), (14, [0x3c]), (60, [0x10])], [9]⟩) := by decide
+example : removeOption (conc 0 ⟨0, 1, 7, [1, 2], [(11, [0x61]), (12, [0]), (14, [0x3c]), (60, [0x10])], [9]⟩) 27 =
+    R.ok (0, conc 0 ⟨0, 1, 7, [1, 2], [(11, [0x61]), (12, [0]), (14, [0x3c]), (60, [0x10])], [9]⟩) :=
+  (remove_rc_prescribed 0 ⟨0, 1, 7, [1, 2], [(11, [0x61]), (12, [0]), (14, [0x3c]), (60, [0x10])], [9]⟩ 27
+    (by unfold Shape; decide)).1 (by decide)
+example : run (conc 0 ⟨0, 1, 7, [1, 2], [(11, [0x61]), (12, [0]), (14, [0x3c]), (60, [0x10])], [9]⟩)
+    ([.remove 13, .remove 1, .remove 12, .remove 12, .remove 61].map callOf) =
+    R.ok ([0, 0, 1, 0, 0], conc 0 ⟨0, 1, 7, [1, 2], [(11, [0x61]), (14, [0x3c]), (60, [0x10])], [9]⟩) := by decide
+example : EditTraceRc ⟨0, 1, 7, [1, 2], [(11, [0x61]), (12, [0]), (60, [0x10])], [9]⟩
+    [.remove 27, .remove 12, .remove 12] [0, 1, 0] ⟨0, 1, 7, [1, 2], [(11, [0x61]), (60, [0x10])], [9]⟩ :=
+  EditTraceRc.refused (by unfold EditRc; decide) (EditTraceRc.accepted false (by decide) (by decide)
+    (by unfold EditRc; decide) (EditTraceRc.refused (by unfold EditRc; decide) (EditTraceRc.nil _)))
+/-- … and the prescription has teeth: "returned 1" for the absent 27 is NOT a trace of S, whatever message it ends on -/
+example : ¬ ∃ a', EditTraceRc ⟨0, 1, 7, [], [(11, [0x61]), (60, [0x10])], []⟩ [.remove 27] [1] a' := by
+  rintro ⟨a', h⟩
+  cases h with
+  | accepted hop _ _ hrc _ => unfold EditRc at hrc; revert hrc; decide
 
 /-- edits of RECEIVED messages start from a representing PDU too: what `coap_pdu_parse` leaves behind for an accepted
 message (`M.ofParsed`: the received bytes behind the fixed header, `max_opt` = last option number, `data` = offset
